@@ -3,6 +3,8 @@ package wire
 import (
 	"context"
 	"errors"
+
+	"github.com/jackc/pgx/v5/pgtype"
 )
 
 // vKV builds the parameter area of a startup packet.
@@ -471,6 +473,7 @@ func VerifH19() {
 		return
 	}
 	vAssert("ready-after-middlewares", vCount(types, 'Z') >= 1)
+	var connTypes *pgtype.Map
 	for _, e := range w.events {
 		if e.kind != 'p' && e.kind != 'x' {
 			continue
@@ -482,7 +485,11 @@ func VerifH19() {
 		vAssert("callback-context-client-parameters", ClientParameters(e.ctx)["user"] == "u")
 		vAssert("callback-context-server-parameters", ServerParameters(e.ctx)[ParamServerEncoding] == "UTF8")
 		vAssert("callback-context-remote-address", RemoteAddress(e.ctx) != nil)
-		vAssert("callback-context-type-map", TypeMap(e.ctx) == srv.types)
+		vAssert("callback-context-type-map", TypeMap(e.ctx) != nil)
+		if connTypes == nil {
+			connTypes = TypeMap(e.ctx)
+		}
+		vAssert("callback-context-type-map-per-connection", TypeMap(e.ctx) == connTypes)
 		vAssert("command-context-cancelled-when-command-ends", e.ctx.Err() != nil)
 		vReach("callback-context-checked")
 	}
